@@ -30,6 +30,8 @@ qualifying-set class (none/one/many/all) or choice made/none.";
 struct Ctx {
     run_dir: PathBuf,
     rt: tokio::runtime::Runtime,
+    /// bit set of (strategy kind x qualifying-set class) combinations already written out as samples
+    sampled: std::cell::Cell<u32>,
 }
 
 fn new_rt() -> tokio::runtime::Runtime {
@@ -381,7 +383,16 @@ fn evaluate(ctx: &Ctx, scn: &Scenario, report: &mut Report) {
             ));
             let nontrivial = !probe.targets.is_empty();
             report.eval(nontrivial.then_some(key.as_str()));
-            if report.wants_sample() && nontrivial && (pi == 0) && scn.index % 7 == 0 {
+            // samples: one per (strategy kind, qualifying-set class), cases with at least two targets
+            let combo = 1u32
+                << (match elig_class {
+                    "none" => 0,
+                    "one" => 1,
+                    "many" => 2,
+                    _ => 3,
+                } + if matches!(scn.strategy, StrategySpec::Any) { 0 } else { 4 });
+            if report.wants_sample() && probe.targets.len() >= 2 && ctx.sampled.get() & combo == 0 {
+                ctx.sampled.set(ctx.sampled.get() | combo);
                 report.sample(json!({
                     "route": route,
                     "config_file": match &scn.route { Route::File { text, .. } => json!(text), Route::Direct => Value::Null },
@@ -474,7 +485,8 @@ fn main() {
     let cli = Cli::parse();
     report::watchdog(&cli.prop, 900);
     let mut report = Report::new(&cli, "exploration", RULE);
-    report.set_max_samples(6);
+    // at most three samples from the file route, the rest from the direct route
+    report.set_max_samples(3);
     if cli.prop != "C18" {
         report.inconclusive_fatal(&format!("vp-route decides C18 only, not {}", cli.prop));
         std::process::exit(report.finish());
@@ -499,6 +511,7 @@ fn main() {
     let ctx = Ctx {
         run_dir: run_dir(),
         rt: new_rt(),
+        sampled: std::cell::Cell::new(0),
     };
 
     // ---- replay -------------------------------------------------------------------------------------
@@ -526,7 +539,7 @@ fn main() {
     }
 
     // ---- phase 1: file route, single-threaded ----------------------------------------------------------
-    let file_scenarios = cli.scaled(cli.tier.pick(400, 4_000));
+    let file_scenarios = cli.scaled(cli.tier.pick(600, 20_000));
     let file_probes = 6usize;
     for i in 0..file_scenarios {
         // distinct index space from the direct phase
@@ -541,6 +554,7 @@ fn main() {
     let chunks: Vec<(u64, u64)> = (0..scenarios.div_ceil(chunk))
         .map(|c| (c * chunk, ((c + 1) * chunk).min(scenarios)))
         .collect();
+    report.set_max_samples(8);
     let base = report.fork();
     let seed = cli.seed;
     let run_dir = ctx.run_dir.clone();
@@ -549,6 +563,7 @@ fn main() {
         let ctx = Ctx {
             run_dir: run_dir.clone(),
             rt: new_rt(),
+            sampled: std::cell::Cell::new(0),
         };
         for i in *lo..*hi {
             let scn = generate::scenario(seed, i, probes, false);
